@@ -33,64 +33,24 @@ CHECKS = {
              "2/3, loop nesting per def 2/3 (uniform beyond).",
         ref="DESIGN.md §3 C02"),
     "C03": dict(
-        technique="path-sensitive token-kind refinement over parse.py "
-                  "(abstract interpretation in the kind-set domain) against "
-                  "the lexer's per-kind value languages; structural lexer "
-                  "payload-flow rules",
+        technique='path-sensitive token-kind refinement over parse.py (abstract interpretation in the kind-set domain, helpers inlined) against per-kind value languages; lexer laws (payload-opaque, total) on a class-exhaustive model obtained by interpreting the current tokenise on its own character classes',
         category="other",
-        text="Decides the grouping clause for the parser as architected: "
-             "every read of a token's .value in parse.py (and the arity "
-             "lookup in transpile.lambda_wrap) is annotated with the set of "
-             "token kinds that can reach it on any path; a read that decides "
-             "grouping (comparison with / lookup in syntax constants, "
-             "modifier key, lambda arity) must only see kinds whose value "
-             "language (derived from the lexer) cannot spell the constant. "
-             "Lexer side: consumed payload is never re-queued, scan loops of "
-             "free-text literals stop only at their own delimiter, the "
-             "backslash arm keeps escaped delimiters in the payload.",
+        text="Decides the grouping clause for the parser as architected: every read of a token's .value in parse.py (and the arity lookup in transpile.lambda_wrap) is annotated with the set of token kinds that can reach it on any path; a read that decides grouping must only see kinds whose value language cannot spell the constant. Lexer side, for all strings of length <= 2 (reduced length 3) over the lexer's own character classes: for every literal form found (delimited, one-/two-character prefix, comment) the kinds of the tokens around the literal do not depend on the payload and the payload is the token's value; escape characters must keep themselves and the next character; the lexer never raises.",
         ref="DESIGN.md §3 C03"),
     "C04": dict(
-        technique="guard-dominance and post-dominance rules over the lexer "
-                  "branches and the parser's branch collector",
+        technique='lexer laws (total, closer-optional) on the class-exhaustive interpreted lexer model; bounded closed-vs-truncated comparison of the interpreted tokenise+parse on programs generated from the structure table; structural rules on the branch collector',
         category="other",
-        text="Necessary structural conditions for all programs: every access "
-             "to the lexer's input queue is dominated by a non-emptiness "
-             "test; delimiter-terminated literals append their token "
-             "unconditionally, stop before the delimiter and consume it only "
-             "if present; _get_branches loops while tokens remain, never "
-             "raises, has one unconditional return and does not store the "
-             "outermost closer; parse() never reads the closing state and no "
-             "rejection depends on it. Does not decide the equality of the "
-             "two parses itself.",
+        text='For every delimited literal form and every payload of <= 2 class characters `d payload` and `d payload d` lex alike and no probe raises; for ~250 (thorough ~5000) generated closed programs and every droppable suffix of their trailing closers the interpreted front end builds the same tree; _get_branches loops while tokens remain, never raises, has one unconditional return and does not store the outermost closer; parse() never reads the closing state. The sweep is bounded; the structural rules carry the general argument.',
         ref="DESIGN.md §3 C04"),
     "C05": dict(
-        technique="template extraction (taint/template domain) of the NUMBER "
-                  "lowering + exact-constructor vocabulary check; structural "
-                  "rules on the lexer's number branch",
+        technique='template extraction (taint/template domain) of the NUMBER lowering + exact-constructor vocabulary; number-splitting laws on the interpreted lexer over all digit strings of length <= 5',
         category="other",
-        text="Clause-level: the literal text reaches the runtime only as the "
-             "string argument of an exact constructor (int, sympy.Integer/"
-             "Rational, Fraction, sympify(rational=True); nsimplify only on "
-             "the digits-only path), never through float/Float/N/eval or a "
-             "closed-form-guessing nsimplify; the lexer's number branch keeps "
-             "the digit charset, emits a leading 0 alone and stops before a "
-             "second point. Does not decide numerical equality in general.",
+        text='Clause-level: the literal text reaches the runtime only as the string argument of an exact constructor (int, sympy.Integer/Rational, Fraction, sympify(rational=True); nsimplify only on the digits-only path - nsimplify(rational=True) is not exact), unmodified except split/join/constant concatenation; on all strings of length <= 5 over 0 7 . ° the lexer yields NUMBER tokens that spell the input exactly, with at most one point per part and one °, a leading 0 standing alone, and maximal. Does not decide numerical equality in general.',
         ref="DESIGN.md §3 C05"),
     "C06": dict(
-        technique="class-exhaustive transducer composition: the four stages "
-                  "(quotify escape table, lexer back-quote branch, "
-                  "uncompress_dict, escaping loop) interpreted from source on "
-                  "a character-class alphabet, plus structural "
-                  "character-wise-ness checks",
+        technique="class-exhaustive transducer composition: quotify's escape table, the lexer, uncompress_dict and the STRING arm interpreted from source on a character-class alphabet; homomorphism of the escaping stage on the writer's units",
         category="other",
-        text="Decides the round trip over a character-class abstraction: "
-             "quotify's escape table (backslash first), the lexer's "
-             "back-quote branch, dictionary decompression and the escaping "
-             "loop are composed with python's literal semantics on every "
-             "class string of length <= 2 (3 thorough); each stage is shown "
-             "character-wise up to backslash pairs, so identity on classes "
-             "and adjacent pairs extends to all strings. Does not decide "
-             "dictionary words themselves.",
+        text="Decides the round trip over a character-class abstraction: the four stages composed with python's literal semantics are the identity on every class string of length <= 2 (3 thorough), the quoted text lexes as one literal, and the escaping stage is a homomorphism on the writer's units (plain character, escaped backslash, escaped back-quote) over all unit pairs, so the result extends to all strings. Does not decide dictionary words themselves.",
         ref="DESIGN.md §3 C06"),
     "C07": dict(
         technique="exact-arithmetic vocabulary check (abstract typing "
@@ -153,19 +113,9 @@ CHECKS = {
              "builds a new container for lists and lazy lists.",
         ref="DESIGN.md §3 C10"),
     "C11": dict(
-        technique="structural shape / ordering rules on get_input, pop, the "
-                  "input element template and the scope-pushing templates "
-                  "(field-write inventory for cursors and the flag)",
+        technique='get_input and pop treated as transition systems: their current source interpreted on every small abstract state; field-write inventory for cursors and the flag; template rules for the input element and the scope-pushing templates',
         category="other",
-        text="Clause-level: every read in get_input has the cyclic shape "
-             "S[0][S[1] % len(S[0])] on one scope, is guarded by a non-empty "
-             "scope and followed by exactly one S[1] += 1 on the same scope "
-             "before returning; scope choice is inputs[0] iff use_top_input; "
-             "empty-scope fallbacks match the specification; cursors and the "
-             "flag are written nowhere else; pop calls get_input once per "
-             "missing item; the ? template sets/reads/resets the flag; lambda "
-             "and function templates push [reversed copy of the arguments, "
-             "0]. Scope push/pop balance is C12's.",
+        text="One call of get_input on each of 4296 abstract states (<= 3 scopes, <= 3 inputs each, every cursor position, both flag values) returns input `cursor mod n` of the scope selected by the explicit-read flag (0 for an empty scope), advances exactly that cursor and leaves the flag unchanged - the k-th-read law follows by induction; pop on a short stack returns the stack items then the next inputs in order; the ? template sets/reads/resets the flag; lambda and function templates push [reversed copy of the arguments, 0]; no implicit read after the call's own scope was popped. Scope push/pop balance is C12's.",
         ref="DESIGN.md §3 C11"),
     "C12": dict(
         technique="stack-height (typestate) analysis over the structured CFG "
@@ -212,36 +162,14 @@ CHECKS = {
              "for. Does not decide the linear pull bound.",
         ref="DESIGN.md §3 C14"),
     "C15": dict(
-        technique="constant folding of the codec alphabets + writer/reader "
-                  "table-agreement queries over the encoder and decoder "
-                  "functions",
+        technique='constant folding of the codec alphabets + writer/reader table-agreement queries; read-back law on the interpreted lexer; round trip of the pure positional helpers interpreted on boundary values',
         category="other",
-        text="Clause-level ('tables agree'): every alphabet has distinct "
-             "symbols and excludes its literal's delimiter, the delimiters "
-             "are the lexer heads of their token kinds, encoder and decoder "
-             "use len(alphabet) as radix, the three codecs name the same "
-             "alphabet constants on the writing and the reading side in "
-             "mirrored order, one-digit dictionary indices are padded with "
-             "the zero digit, the dictionary fits in two digits and lookup "
-             "inverts contents. Does not decide to_base's arithmetic.",
+        text='Clause-level: alphabets distinct and free of their delimiter, delimiters are lexer heads, the three codecs name the same alphabet constants on both sides in mirrored order, dictionary pad/capacity/lookup agree, every digit of the compressed alphabets is read back verbatim inside its literal, and to/from_base_digits and to/from_base_alphabet invert each other on all small values and b^k-1, b^k, b^k+1 for bases 2,3,10,27,255 and the four alphabets. Does not decide the arithmetic of the τ element (float logarithm through sympy).',
         ref="DESIGN.md §3 C15"),
     "C18": dict(
-        technique="taint / sanitiser analysis: abstract interpretation of "
-                  "transpile.py in a template domain with sanitiser classes, "
-                  "regex-class contents from re._parser, escaping loop "
-                  "verified as a transducer over a class alphabet",
+        technique='taint / sanitiser analysis: abstract interpretation of transpile.py in a template domain (helpers inlined) with sanitiser classes and regex-class contents from re._parser; emitted-syntax-tree-shape independence of the payload for free-text token kinds',
         category="other",
-        text="Decides for every input string that program text reaches "
-             "returned code only inside string/number constants or as the "
-             "tail of a fixed-prefix identifier: every program-derived value "
-             "in transpile_token/transpile_structure/transpile_lambda is "
-             "tracked with its sanitiser class (int(), !r, negated-class "
-             "re.sub with kept set, token value language from the lexer, "
-             "verified escaping loop, token_hex) and checked against the "
-             "python context of the constant template text around it; "
-             "element/modifier code comes only from table lookups; every "
-             "structure.Lambda arity is an int or 'default' at its "
-             "construction site.",
+        text="Decides for every input string that program text reaches returned code only inside string/number constants or as the tail of a fixed-prefix identifier: every program-derived value in the three transpile functions is tracked with its sanitiser class and checked against the python context of the constant template text around it; for STRING, COMPRESSED_*, CHARACTER and CODEPAGE_NUMBER the syntax tree of the emitted code with constants masked is the same for every payload over an adversarial class alphabet; every Lambda arity is an int or 'default' at its construction site.",
         ref="DESIGN.md §3 C18"),
     "C19": dict(
         technique="whole-package inventory of dynamic-evaluation and "
@@ -261,17 +189,9 @@ CHECKS = {
              "written nowhere else; flask_app passes online_mode=True.",
         ref="DESIGN.md §3 C19"),
     "C20": dict(
-        technique="constant folding of code page / tables + abstract lexer "
-                  "head-dispatch table, exhaustive over all keys",
+        technique='constant folding of code page / tables; interpreted tokenise on every key; exhaustive over all keys, all bytes and (thorough) all 65536 two-character strings',
         category="other",
-        text="Finite and exhaustive (not called a proof because four "
-             "obligations fail today and are carried as known findings): "
-             "every obligation of the statement "
-             "(256-entry bijective code page, per-character converters, every "
-             "table key in the code page, lexed as one token by the lexer's "
-             "head-dispatch table, not shadowed by syntax or a duplicate key, "
-             "modifier tables agreeing, documented arity equal to table arity) "
-             "is discharged on constants folded from the current sources.",
+        text='Finite and exhaustive (not called a proof because four obligations fail today and are carried as known findings): 256 distinct code-page entries, converters that round-trip every byte/character and act character by character, every table key in the code page, lexed as exactly one GENERAL token by the current tokenise, not shadowed by syntax or a duplicate key, modifier tables agreeing, documented arity equal to table arity.',
         ref="DESIGN.md §3 C20",
         note="Trusts CPython's ast, the vystatic constant folder, and the "
              "regular layout of elements.yaml; the lexer is represented by its "
